@@ -394,7 +394,7 @@ pub mod calls {
     #[derive(TypeInfo)]
     pub enum Call {
         /// transfer docs
-        #[codec(index = 3)]
+        #[codec(index = 9)]
         Transfer {
             dest: super::basic::Tup,
             #[codec(compact)]
